@@ -161,6 +161,34 @@ impl<'a, L> Engine<'a, L> {
         for inode in list_seeds {
             self.mark_list_node(inode);
         }
+        // a list is only rendered (as @list) by the node object of its parent;
+        // following the parents of a list node must therefore lead to a node that is not a list node.
+        // Otherwise (cycle through rdf:first) nothing would render it: unmark those nodes.
+        let mut anchored: HashMap<Box<str>, bool> = HashMap::new();
+        for label in self.list_node.keys() {
+            let mut path = vec![];
+            let mut cur = label;
+            let res = loop {
+                if let Some(known) = anchored.get(cur) {
+                    break *known;
+                }
+                if path.len() > self.list_node.len() {
+                    // more steps than list nodes: we are going round in circles
+                    break false;
+                }
+                match self.list_node.get(cur) {
+                    None => break true,
+                    Some(iparent) => {
+                        path.push(cur);
+                        cur = &self.gs_id[*iparent].1;
+                    }
+                }
+            };
+            for l in path {
+                anchored.insert(l.clone(), res);
+            }
+        }
+        self.list_node.retain(|label, _| anchored[label]);
         // check that candidate compound literals are indeed compound literels
         if self.options.rdf_direction() == Some(RdfDirection::CompoundLiteral) {
             let mut compound_literals = std::mem::take(&mut self.compound_literals);
